@@ -1,6 +1,7 @@
 package props
 
 import (
+	"os"
 	"go/ast"
 	"go/token"
 	"go/types"
@@ -157,7 +158,14 @@ func runC06(c *Ctx) {
 					}
 				}
 			}
-			c.Check("C06-R1", f.Key()+" returns a block of curBatchSize consecutive empty cells", c.Pos(ex.Return), okCount && okEmpty && okInc && okReset, "the location may be returned only when count >= curBatchSize, count being incremented on empty cells and reset to 0 on an occupied one")
+			formA := okCount && okEmpty && okInc && okReset
+			// second accepted form: no counter; start is moved past every occupied cell and the location is
+			// returned on an empty cell i with i-start+1 >= curBatchSize, i visiting the cells upwards by one
+			formB := false
+			if !formA {
+				formB = findStartLocRunForm(c, f, g, ex, fSeqs)
+			}
+			c.Check("C06-R1", f.Key()+" returns a block of curBatchSize consecutive empty cells", c.Pos(ex.Return), formA || formB, "the location may be returned only when count >= curBatchSize, count being incremented on empty cells and reset to 0 on an occupied one (or, without a counter, when i-start+1 >= curBatchSize on an empty cell i, start being moved to i+1 on every occupied cell)")
 		}
 		c.Expect("C06-R1", "success returns of findStartLoc", n, 1)
 		// failure wraps ErrKvCacheFull
@@ -580,6 +588,138 @@ func runC06(c *Ctx) {
 }
 
 // lenOfField: e is len(<expr ending in field f>) → f.
+// findStartLocRunForm: the counter-free spelling of findStartLoc (see C06-R1).
+func findStartLocRunForm(c *Ctx, f *core.Func, g *core.Graph, ex core.Exit, fSeqs *types.Var) bool {
+	info := f.Info()
+	if ex.Return == nil || len(ex.Return.Results) < 1 {
+		return false
+	}
+	sid, ok := ast.Unparen(ex.Return.Results[0]).(*ast.Ident)
+	if !ok {
+		return false
+	}
+	start, _ := info.ObjectOf(sid).(*types.Var)
+	if start == nil {
+		return false
+	}
+	// the loop index: an upward unit-step loop that contains the return
+	var idx types.Object
+	var loopBody ast.Node
+	ast.Inspect(f.Body, func(n ast.Node) bool {
+		switch x := n.(type) {
+		case *ast.RangeStmt:
+			if within(x.Body, ex.Return) && x.Key != nil {
+				if id, isID := x.Key.(*ast.Ident); isID && id.Name != "_" {
+					idx, loopBody = info.ObjectOf(id), x.Body
+				}
+			}
+		case *ast.ForStmt:
+			if !within(x.Body, ex.Return) || x.Init == nil || x.Post == nil {
+				return true
+			}
+			init, isAs := x.Init.(*ast.AssignStmt)
+			post, isInc := x.Post.(*ast.IncDecStmt)
+			if !isAs || !isInc || post.Tok != token.INC || len(init.Lhs) != 1 || len(init.Rhs) != 1 {
+				return true
+			}
+			if v, isC := core.ConstInt(info, init.Rhs[0]); !isC || v != 0 {
+				return true
+			}
+			lid, isL := init.Lhs[0].(*ast.Ident)
+			pid, isP := ast.Unparen(post.X).(*ast.Ident)
+			if isL && isP && info.ObjectOf(lid) == info.ObjectOf(pid) {
+				idx, loopBody = info.ObjectOf(lid), x.Body
+			}
+		}
+		return true
+	})
+	if idx == nil {
+		return false
+	}
+	// the index must not be written in the body
+	for _, as := range g.AssignsTo(idx) {
+		if a, isAs := as.Node.(*ast.AssignStmt); isAs && a.Tok != token.DEFINE {
+			return false
+		}
+	}
+	okLen, okEmpty := false, false
+	for _, a := range g.AtomsAt(ex.Loc) {
+		if lenZeroOfField(info, a.Expr, a.Val) == fSeqs {
+			okEmpty = true
+		}
+		be, isB := ast.Unparen(a.Expr).(*ast.BinaryExpr)
+		if !isB {
+			continue
+		}
+		op := be.Op
+		if !a.Val {
+			op = negateCmp(op)
+		}
+		x, y := be.X, be.Y
+		if selName(x) == "curBatchSize" {
+			x, y = y, x
+			switch op {
+			case token.LEQ:
+				op = token.GEQ
+			case token.LSS:
+				op = token.GTR
+			case token.GEQ:
+				op = token.LEQ
+			case token.GTR:
+				op = token.LSS
+			}
+		}
+		if selName(y) != "curBatchSize" {
+			continue
+		}
+		terms, k, lin := linearForm(info, x)
+		if !lin || len(terms) != 2 || terms[idx] != 1 || terms[start] != -1 {
+			continue
+		}
+		// i - start + 1 >= n, i - start >= n - 1 is not spelled; i - start + 1 == n reaches the same cell first
+		if (op == token.GEQ || op == token.EQL) && k == 1 {
+			okLen = true
+		}
+		if op == token.GTR && k == 0 {
+			okLen = false // i - start > n needs one cell too many: not the same block, leave to the counter form
+		}
+	}
+	// start: zero to begin with, i+1 on an occupied cell, nothing else
+	okMoves, moved := true, false
+	for _, as := range g.AssignsTo(start) {
+		a, isAs := as.Node.(*ast.AssignStmt)
+		if !isAs || len(a.Rhs) != 1 {
+			if _, isDecl := as.Node.(*ast.DeclStmt); isDecl {
+				continue
+			}
+			if vs, isVS := as.Node.(*ast.ValueSpec); isVS && len(vs.Values) == 0 {
+				continue
+			}
+			okMoves = false
+			continue
+		}
+		if v, isC := core.ConstInt(info, a.Rhs[0]); isC && v == 0 && !within(loopBody, a) {
+			continue // initialisation outside the loop
+		}
+		terms, k, lin := linearForm(info, a.Rhs[0])
+		occupied := false
+		for _, at := range g.AtomsAt(as.Loc) {
+			if lenNonZeroOfField(info, at.Expr, at.Val) == fSeqs {
+				occupied = true
+			}
+		}
+		if lin && len(terms) == 1 && terms[idx] == 1 && k == 1 && occupied {
+			moved = true
+		} else {
+			okMoves = false
+		}
+	}
+	if os.Getenv("VERIF_DEBUG") != "" {
+		println("findStartLocRunForm", okLen, okEmpty, okMoves, moved)
+	}
+	return okLen && okEmpty && okMoves && moved
+}
+
 func lenOfField(info *types.Info, e ast.Expr) *types.Var {
 	call, ok := ast.Unparen(e).(*ast.CallExpr)
 	if !ok || core.CalleeName(info, call) != "builtin.len" || len(call.Args) != 1 {
